@@ -273,7 +273,20 @@ func TestC15(t *testing.T) {
 		jobs[i] = vsched.Job{Sc: scenario(p.p), Cfg: vsched.Config{Bound: p.bound, Cache: true, Iterate: true, Deadline: dl}, Weight: p.p.Callers*10 + p.p.Targets*3 + p.p.Draws}
 	}
 	if rp := os.Getenv("VERIF_REPLAY"); rp != "" && !vsched.IsChild() {
-		t.Skip("replay: re-run ./check C15 quick; schedules are listed in the replay file's trace")
+		scs := make([]vsched.Scenario, len(jobs))
+		for i := range jobs {
+			scs[i] = jobs[i].Sc
+		}
+		v, err := vsched.ReplayFile(rp, scs)
+		if err != nil {
+			t.Fatalf("replay: %v", err)
+		}
+		if v != "" {
+			fmt.Printf("VIOLATION property=%s replay=%s\n  %s\n", "C15", rp, v)
+			t.Fatalf("replayed violation: %s", v)
+		}
+		fmt.Println("replay: no violation on this schedule")
+		return
 	}
 	R := ev.New("C15")
 	stats := vsched.ExploreAll(jobs, 16, "TestC15")
